@@ -473,6 +473,32 @@ def dtype_forms(ctx):
                                       f"float64 copy by {np.max(np.abs(got - want)) if got.shape == want.shape else 'shape'}", case)
                     if not np.array_equal(keep, v):
                         ctx.violation(f"dtype-forms:{oname}:{fname}:values-modified", f"{oname} modified the caller's {fname} values", case)
+        # the handed-out callables are functions of the CONTENTS of the array they are given: a work array evaluated, refilled
+        # in place with other points, evaluated again (lesson of seeded change C15-J, applied here)
+        with warnings.catch_warnings():
+            warnings.simplefilter("ignore")
+            pa = centre + np.array([[0.3, 0.2, -0.4], [1.0, -0.7, 0.2], [-0.5, 0.9, 1.1], [0.1, 0.1, 2.0]])
+            pb = centre + np.array([[-0.8, 0.4, 0.3], [0.2, 1.3, -0.6], [0.6, -0.2, -1.5], [1.4, 0.5, 0.5]])
+            f = g.interpolate(vf.copy())
+            sa = g.spherical_average(vf.copy())
+            for cname, fn, A, B in (("interpolant", lambda q: f(q), pa, pb), ("interpolant-deriv1", lambda q: f(q, deriv=1), pa, pb),
+                                    ("interpolant-radial-deriv2", lambda q: f(q, deriv=2, only_radial_deriv=True), pa, pb),
+                                    ("spherical-average", lambda q: sa(q), np.array([0.2, 0.9, 2.0]), np.array([1.3, 0.4, 0.05]))):
+                ctx.count(section="dtype-forms")
+                case = {"route": "dtype-forms", "op": cname, "form": "refilled-work-array", "rgrid": rname}
+                try:
+                    ref_b = np.asarray(fn(B.copy()), dtype=float)
+                    buf = A.copy()
+                    fn(buf)
+                    buf[...] = B
+                    got = np.asarray(fn(buf), dtype=float)
+                except Exception as exc:
+                    ctx.violation(f"dtype-forms:{cname}:refill:raised:{type(exc).__name__}", f"{cname} on a refilled work array: {exc}", case)
+                    continue
+                ctx.nontrivial(("dtype-forms", rname, cname, "refill"), section="dtype-forms")
+                if got.shape != ref_b.shape or _gt(np.max(np.abs(got - ref_b)), 1e-12 * (np.max(np.abs(ref_b)) + 1e-300)):
+                    ctx.violation(f"dtype-forms:{cname}:stale-after-points-refilled-in-place", f"{cname} evaluated on a work array, the array refilled in "
+                                  f"place and evaluated again differs from a fresh array of the same points", case)
         # evaluation points in an integer dtype
         with warnings.catch_warnings():
             warnings.simplefilter("ignore")
